@@ -392,6 +392,77 @@ example : (joinMsg 20 witSrv .idle [10] 3 []).1 = ([0x48, 0x65, 0x6c, 0x6c, 0x6f
 
 end Join
 
+section Mixed
+open WS.MixedReads
+
+/-- non-vacuity of `read_message_mixed`, list of sizes ending INSIDE the message: `ReaderIdle`,
+    `MsgShape`, the pending bytes, `hend`, the size and limit hypotheses and `∀ k ∈ ks, 0 < k` hold
+    together for `witSrv` / `witMsg` with `ks = [1, 3]`, then reads of 2 bytes to the end -/
+example : ∃ c1 rid, nextReader witSrv = (.msg 1 rid false, c1) ∧
+      ∃ pre st c2, zFills [1, 3] c1 rid [] = ((pre, st), c2) ∧
+        ((st = some .eof ∧ pre = [0x48, 0x65, 0x6c, 0x6c, 0x6f] ∧ ReaderIdle c2 ∧
+            c2.r.buf.pending = encAll true witMsg2 ++ [0x81] ∧ c2.r.hlog = [.pong [], .ping [0x70]]) ∨
+         (st = none ∧ ∃ suf c3, readAll c2 rid 2 = ((suf, none), c3) ∧ pre ++ suf = [0x48, 0x65, 0x6c, 0x6c, 0x6f] ∧
+            ReaderIdle c3 ∧ c3.r.buf.pending = encAll true witMsg2 ++ [0x81] ∧
+            c3.r.hlog = [.pong [], .ping [0x70]])) :=
+  read_message_mixed witSrv witSrv_idle 1 (Or.inl rfl) witMsg witMsg_shape (encAll true witMsg2 ++ [0x81])
+    (by decide) (Or.inl rfl) (by decide) (by decide) [1, 3] (by decide) 2 (by decide)
+
+/-- … evaluated on the model: the second alternative holds. Read(1) = "H"; Read(3) = "el" (a Read
+    never crosses a frame border), no end-of-message yet; the reads of 2 bytes then deliver "lo"
+    (after the ping handler ran) -/
+example : (zFills [1, 3] (nextReader witSrv).2 0 []).1 = ([0x48, 0x65, 0x6c], none) ∧
+    (readAll (zFills [1, 3] (nextReader witSrv).2 0 []).2 0 2).1 = ([0x6c, 0x6f], none) ∧
+    (readAll (zFills [1, 3] (nextReader witSrv).2 0 []).2 0 2).2.r.hlog = [.pong [], .ping [0x70]] := by
+  decide +kernel
+
+/-- non-vacuity of `read_message_mixed`, list of sizes REACHING the end of the message:
+    `ks = [2, 2, 4096, 7]` -/
+example : ∃ c1 rid, nextReader witSrv = (.msg 1 rid false, c1) ∧
+      ∃ pre st c2, zFills [2, 2, 4096, 7] c1 rid [] = ((pre, st), c2) ∧
+        ((st = some .eof ∧ pre = [0x48, 0x65, 0x6c, 0x6c, 0x6f] ∧ ReaderIdle c2 ∧
+            c2.r.buf.pending = encAll true witMsg2 ++ [0x81] ∧ c2.r.hlog = [.pong [], .ping [0x70]]) ∨
+         (st = none ∧ ∃ suf c3, readAll c2 rid 2 = ((suf, none), c3) ∧ pre ++ suf = [0x48, 0x65, 0x6c, 0x6c, 0x6f] ∧
+            ReaderIdle c3 ∧ c3.r.buf.pending = encAll true witMsg2 ++ [0x81] ∧
+            c3.r.hlog = [.pong [], .ping [0x70]])) :=
+  read_message_mixed witSrv witSrv_idle 1 (Or.inl rfl) witMsg witMsg_shape (encAll true witMsg2 ++ [0x81])
+    (by decide) (Or.inl rfl) (by decide) (by decide) [2, 2, 4096, 7] (by decide) 2 (by decide)
+
+/-- … evaluated on the model: the first alternative holds ("He", "l", "lo", then io.EOF); the
+    following bytes are untouched and the ping handler ran once -/
+example : (zFills [2, 2, 4096, 7] (nextReader witSrv).2 0 []).1 = ([0x48, 0x65, 0x6c, 0x6c, 0x6f], some .eof) ∧
+    (zFills [2, 2, 4096, 7] (nextReader witSrv).2 0 []).2.r.buf.pending = encAll true witMsg2 ++ [0x81] ∧
+    (zFills [2, 2, 4096, 7] (nextReader witSrv).2 0 []).2.r.hlog = [.pong [], .ping [0x70]] := by
+  decide +kernel
+
+/-- the capacities [2, 3, 8] are strictly increasing from 0 -/
+def witCaps_growing : Growing 0 [2, 3, 8] := by simp [Growing]
+
+/-- non-vacuity of `read_message_any_caps`: the same witness read by ReadMessage with an allocator that
+    answers the capacities 2, 3, 8 (requests of 2, 1, 5 bytes) -/
+example : ∃ c1 rid, nextReader witSrv = (.msg 1 rid false, c1) ∧
+      ∃ c2, readAllGrow c1 rid [2, 3, 8] = (([0x48, 0x65, 0x6c, 0x6c, 0x6f], none), c2) ∧ ReaderIdle c2 ∧
+        c2.r.buf.pending = encAll true witMsg2 ++ [0x81] ∧ c2.r.hlog = [.pong [], .ping [0x70]] :=
+  read_message_any_caps witSrv witSrv_idle 1 (Or.inl rfl) witMsg witMsg_shape (encAll true witMsg2 ++ [0x81])
+    (by decide) (Or.inl rfl) (by decide) (by decide) [2, 3, 8] witCaps_growing
+
+/-- … and with no measured capacities at all (`caps = []`, `Growing 0 []` is trivial: the model starts
+    at 512 and grows by 8192) -/
+example : ∃ c1 rid, nextReader witSrv = (.msg 1 rid false, c1) ∧
+      ∃ c2, readAllGrow c1 rid [] = (([0x48, 0x65, 0x6c, 0x6c, 0x6f], none), c2) ∧ ReaderIdle c2 ∧
+        c2.r.buf.pending = encAll true witMsg2 ++ [0x81] ∧ c2.r.hlog = [.pong [], .ping [0x70]] :=
+  read_message_any_caps witSrv witSrv_idle 1 (Or.inl rfl) witMsg witMsg_shape (encAll true witMsg2 ++ [0x81])
+    (by decide) (Or.inl rfl) (by decide) (by decide) [] (by simp [Growing])
+
+/-- `readAllGrow` evaluated on the model for both capacity lists -/
+example : (readAllGrow (nextReader witSrv).2 0 [2, 3, 8]).1 = ([0x48, 0x65, 0x6c, 0x6c, 0x6f], none) ∧
+    (readAllGrow (nextReader witSrv).2 0 [2, 3, 8]).2.r.buf.pending = encAll true witMsg2 ++ [0x81] ∧
+    (readAllGrow (nextReader witSrv).2 0 [2, 3, 8]).2.r.hlog = [.pong [], .ping [0x70]] ∧
+    (readAllGrow (nextReader witSrv).2 0 []).1 = ([0x48, 0x65, 0x6c, 0x6c, 0x6f], none) := by
+  decide +kernel
+
+end Mixed
+
 end NonVacuity
 
 end WS.Props.C03
